@@ -193,3 +193,46 @@ class MaterialProperty:
         f.restype = C.c_int
         f.argtypes = [C.c_char_p, C.c_double]
         return f(p.encode(), v)
+
+
+def build_cached(name, text, fname, interfaces, libname, extra=(), flags=("-O1",)):
+    """Like build(), but the compiled library is kept in /verif/build/cache/gen.<name> and
+    reused when (a) the sources mfront generates *now* from `text` are byte-identical and
+    (b) no header they include has changed (gcc -MMD dependency hashes).  mfront itself is
+    always re-run (20 ms), so a change of the generator is always seen.
+    Returns (libpath or None, log, mfront_result)."""
+    import hashlib
+    slot = vfcore.CACHE / ("gen.%s" % name)
+    slot.mkdir(parents=True, exist_ok=True)
+    with vfcore.flock(slot / "lock"):
+        w = slot / "w"
+        shutil.rmtree(w, ignore_errors=True)
+        w.mkdir()
+        (w / fname).write_text(text)
+        r = generate(w, [fname], interfaces, extra=extra)
+        if r.rc != 0:
+            return None, r.out + r.err, r
+        h = hashlib.sha1(" ".join(flags).encode())
+        for p in sorted(list((w / "src").glob("*.cxx")) + list((w / "include").rglob("*.hxx"))):
+            h.update(p.name.encode())
+            h.update(p.read_bytes())
+        gkey = h.hexdigest()
+        out = slot / ("lib%s.so" % libname)
+        dkey = vfcore._deps_key([gkey], slot / "deps.d") if (slot / "deps.d").exists() else None
+        kf = slot / "key"
+        if out.exists() and dkey and kf.exists() and kf.read_text() == dkey:
+            return out, "", r
+        lib, log = vfcore.compile_generated(w, libname, flags=tuple(flags) + ("-MMD",))
+        if lib is None:
+            return None, log, r
+        names = set()
+        for d in (w / "src").glob("*.d"):
+            # generated sources live in the scratch dir: only the headers matter for the key
+            for tok in d.read_text().replace("\\\n", " ").split():
+                if not tok.endswith(":") and not tok.startswith(str(w)):
+                    names.add(tok)
+        deps = "deps: " + " ".join(sorted(names)) + "\n"
+        (slot / "deps.d").write_text(deps)
+        shutil.copy(lib, out)
+        kf.write_text(vfcore._deps_key([gkey], slot / "deps.d") or "")
+        return out, log, r
